@@ -43,14 +43,22 @@ Definition same_ids (a b : list nat) : bool :=
   (length a =? length b) && forallb (fun x => existsb (Nat.eqb x) b) a
   && forallb (fun x => existsb (Nat.eqb x) a) b.
 
-(* one run: enumeration order, the observed order of every set phase, the identifiers FORD assigned *)
-Definition arun := (list nat * list (nat * list nat) * list (nat * str))%type.
+(* one run: (sorted?, pi, observed parse order), the observed order of every set phase, the
+   identifiers FORD assigned.
+   sorted? = true : the real code; pi is the order in which the patched find_all_files handed the
+                    set over; Project.__init__ sorts it.
+   sorted? = false: the same run with the name `sorted` neutralised inside ford.fortran_project, so
+                    that the files are parsed in the order pi: exercises the pipeline model
+                    (idents_enum) under arbitrary enumerations, the premise of the theorems. *)
+Definition arun := ((bool * list nat * list nat) * list (nat * list nat) * list (nat * str))%type.
 
 Definition acase := (ents * list (list str * list (nat * list nat)) * list arun)%type.
 
 Definition run_sets (r : arun) := snd (fst r).
 Definition run_impl (r : arun) := snd r.
-Definition run_pi (r : arun) := fst (fst r).
+Definition run_sorted (r : arun) := fst (fst (fst (fst r))).
+Definition run_pi (r : arun) := snd (fst (fst (fst r))).
+Definition run_obs (r : arun) := snd (fst (fst r)).
 
 Fixpoint impl_get (id : nat) (l : list (nat * str)) : option str :=
   match l with
@@ -66,24 +74,35 @@ Definition project_of (c : acase) : project :=
                | [] => []
                end |}.
 
+(* the enumeration the model predicts for a run *)
+Definition model_enum (P : project) (r : arun) : list pfile :=
+  if run_sorted r then isort file_leb (enumerate (p_files P) (run_pi r))
+  else enumerate (p_files P) (run_pi r).
+
 Definition model_ok (c : acase) (P : project) (r0 r : arun) : bool :=
   let e := fst (fst c) in
   let sets := dense n_sets (reqs_of e (run_sets r)) in
-  let st := final_state (enumerate (p_files P) (run_pi r)) sets in
+  let enum := model_enum P r in
+  let st := final_state enum sets in
   is_permb (run_pi r) (length (p_files P))
+  && list_eqb (list_eqb str_eqb) (map f_path enum) (map f_path (enumerate (p_files P) (run_obs r)))
   && forallb (fun k => same_ids (sparse_get k (run_sets r0)) (sparse_get k (run_sets r))) (seq 0 n_sets)
   && forallb (fun kv => opt_eqb str_eqb (ident_in st (fst kv)) (Some (snd kv))) (run_impl r)
   && forallb (fun kv => match impl_get (fst kv) (run_impl r) with Some _ => true | None => false end) e.
 
+(* the property: every run of the REAL code agrees with the first one *)
 Definition agree (r0 r : arun) : bool :=
-  (length (run_impl r0) =? length (run_impl r))
-  && forallb (fun kv => opt_eqb str_eqb (impl_get (fst kv) (run_impl r0)) (Some (snd kv))) (run_impl r).
+  negb (run_sorted r) ||
+  ((length (run_impl r0) =? length (run_impl r))
+   && forallb (fun kv => opt_eqb str_eqb (impl_get (fst kv) (run_impl r0)) (Some (snd kv))) (run_impl r)).
 
-(* the region predicate, evaluated on the entity table (every entity of the table is requested
-   somewhere, so this is no_clashb of the project, computed with one key per entity) *)
-Definition ents_clash_free (e : ents) : bool :=
+(* the region predicate of C12_partial, evaluated on the entity table: some entity requested in a
+   set-ordered phase shares its (directory, normalised name) with another entity *)
+Definition sets_isolated_ents (e : ents) (set_ids : list nat) : bool :=
   let keyed := map (fun kv => (fst kv, (fst (snd kv), final_name (snd (snd kv))))) e in
-  forallb (fun a => forallb (fun b => Nat.eqb (fst a) (fst b) || negb (key_eqb (snd a) (snd b))) keyed) keyed.
+  forallb (fun a => negb (existsb (Nat.eqb (fst a)) set_ids) ||
+                    forallb (fun b => Nat.eqb (fst a) (fst b) || negb (key_eqb (snd a) (snd b))) keyed)
+          keyed.
 
 Definition judge (c : acase) : nat :=
   let P := project_of c in
@@ -92,7 +111,7 @@ Definition judge (c : acase) : nat :=
   | r0 :: rs =>
     verdict (negb (forallb (model_ok c P r0) (r0 :: rs)))
             (negb (forallb (agree r0) rs))
-            (if ents_clash_free (fst (fst c)) then 0 else 1)
+            (if sets_isolated_ents (fst (fst c)) (concat (map snd (run_sets r0))) then 0 else 1)
   end.
 
 (* which run of a case disagrees with the model (for the replay file) *)
@@ -107,5 +126,13 @@ Definition bad_runs (c : acase) : list nat :=
 Definition judge_emit (c : list str * list str) : nat :=
   let given := fst c in let impl := snd c in
   verdict (negb (list_eqb str_eqb (emit_nodes given (seq 0 (length given))) impl))
+          (negb (list_eqb str_eqb (isort str_leb impl) impl))
+          0.
+
+(* child -> parent edges of one InheritedByGraph node: (parent, children in another order, the
+   tails of the solid edges in the order FORD appended them) *)
+Definition judge_edges (c : str * list str * list str) : nat :=
+  let parent := fst (fst c) in let given := snd (fst c) in let impl := snd c in
+  verdict (negb (list_eqb str_eqb (map fst (emit_child_edges parent given (seq 0 (length given)))) impl))
           (negb (list_eqb str_eqb (isort str_leb impl) impl))
           0.
